@@ -33,9 +33,13 @@ properties! {
     "C03" => c03,
     "C04" => c04,
     "C05" => c05,
+    "C06" => c06,
+    "C07" => c07,
+    "C08" => c08,
     "C10" => c10,
     "C11" => c11,
     "C12" => c12,
+    "C13" => c13,
 }
 
 /// Replay one stored case (a replay/regression JSON written by `Ctx::finish`).
